@@ -1,7 +1,7 @@
 #!/bin/sh
 # usage: seedeval.sh <ID> <X> [srcdir=/tmp/seed]   — confirms a seeded change in the scratch worktree /tmp/wt/<ID>:
 # suite passes with the change; demonstration passes without and fails with it.
-ID=$1; X=$2; S=${3:-/tmp/seed}/$ID/$X; W=/tmp/wt/$ID
+ID=$1; X=$2; S=${3:-/tmp/seed}/$ID/$X; W=${SEED_WT:-/tmp/wt}/$ID
 export GOFLAGS=-mod=mod GOPROXY=off GOTOOLCHAIN=auto
 [ -d "$W" ] || git -C /repo worktree add -q --detach "$W" HEAD
 cd "$W" && git checkout -q -- . && git clean -qfd
